@@ -677,6 +677,87 @@ fn exec(acc: &mut Acc, base: &Base, s: &Signed, km: &KeyMap, hist: &[&str], corr
     Some(v.is_ok())
 }
 
+/// Changes made to the signed layout *in memory* (the public fields of `Metablock` /
+/// `LayoutMetadata`), which no file can express - above all a key table whose entries are filed
+/// under other identifiers than their own.
+const MEMORY_EDITS: [&str; 9] = ["keys:swap-two-entries", "keys:first-entry-under-zeros", "keys:first-entry-also-under-zeros", "keys:first-entry-under-upper-case-id", "readme", "steps[0].threshold+1", "steps[0].pubkeys+X", "steps:reversed", "expires+1s"];
+
+fn memory_edit(l: &mut LayoutMetadata, e: &str) -> bool {
+    let mut ids: Vec<KeyId> = l.keys.keys().cloned().collect();
+    ids.sort();
+    match e {
+        "keys:swap-two-entries" => {
+            if ids.len() < 2 {
+                return false;
+            }
+            let (a, b) = (l.keys.remove(&ids[0]).unwrap(), l.keys.remove(&ids[1]).unwrap());
+            l.keys.insert(ids[0].clone(), b);
+            l.keys.insert(ids[1].clone(), a);
+        }
+        "keys:first-entry-under-zeros" | "keys:first-entry-also-under-zeros" | "keys:first-entry-under-upper-case-id" => {
+            let Some(first) = ids.first() else { return false };
+            let k = if e == "keys:first-entry-also-under-zeros" { l.keys.get(first).cloned().unwrap() } else { l.keys.remove(first).unwrap() };
+            let label = if e.ends_with("upper-case-id") { serde_json::to_value(first).unwrap().as_str().unwrap().to_uppercase() } else { "0".repeat(64) };
+            l.keys.insert(KeyId::from_str(&label).unwrap(), k);
+        }
+        "readme" => l.readme.push('!'),
+        "steps[0].threshold+1" => {
+            let Some(s0) = l.steps.first_mut() else { return false };
+            s0.threshold += 1;
+        }
+        "steps[0].pubkeys+X" => {
+            let Some(s0) = l.steps.first_mut() else { return false };
+            s0.pub_keys.push(keys::get("ed5").private.key_id().clone());
+        }
+        "steps:reversed" => {
+            if l.steps.len() < 2 {
+                return false;
+            }
+            l.steps.reverse();
+        }
+        "expires+1s" => l.expires += chrono::Duration::seconds(1),
+        _ => return false,
+    }
+    true
+}
+
+/// Every in-memory edit of every base layout signed by O1 (and by O1+O3): the owner's signature
+/// must stop verifying, both for `Metablock::verify` and for `in_toto_verify`.
+fn memory_leg(acc: &mut Acc, bases: &[Base]) {
+    for base in bases {
+        for signers in [vec![0usize], vec![0, 2]] {
+            let s = sign_base(base, &signers);
+            let km = KeyMap { name: "exact".into(), entries: signers.iter().map(|i| (key_of(*i).id(), *i)).collect() };
+            for e in MEMORY_EDITS {
+                let mut mb = s.original.clone();
+                let MetadataWrapper::Layout(ref mut l) = mb.metadata else { continue };
+                if !memory_edit(l, e) {
+                    continue;
+                }
+                if mb.metadata == s.original.metadata {
+                    continue;
+                }
+                acc.evaluations += 1;
+                acc.states += 1;
+                acc.transitions += 1;
+                acc.nontrivial += 1;
+                let witness = || json!({"kind": "in-memory-edit", "base": base.name, "signers": signers, "edit": e});
+                let pubs: Vec<PublicKey> = signers.iter().map(|i| pub_of(*i)).collect();
+                let block_level = crate::util::guard(|| mb.verify(pubs.len() as u32, pubs.iter()).is_ok());
+                let end_to_end = world::verify(&mb, to_map(&km), &base.dir);
+                let accepted_block = matches!(block_level, crate::util::Guard::Done(true));
+                acc.outcome(&format!("memory-edit|{}|{}", if accepted_block { "block-verifies" } else { "block-rejected" }, end_to_end.tag()));
+                if accepted_block || end_to_end.is_ok() {
+                    acc.violation(&format!("accepted:content-changed-in-memory:{e}"), &format!("a signed layout changed in memory ({e}) still verifies with the owner's signature ({})", if end_to_end.is_ok() { "in_toto_verify succeeds" } else { "Metablock::verify succeeds" }), witness);
+                }
+                if let Verdict::Panic(l, m) = &end_to_end {
+                    acc.violation(&format!("panic:{l}"), m, witness);
+                }
+            }
+        }
+    }
+}
+
 pub fn run(tier: Tier) -> i32 {
     let mut c = Check::new("C01", "model_checking", tier);
     let scratch_cwd = util::fresh_dir("c01-cwd");
@@ -776,6 +857,7 @@ pub fn run(tier: Tier) -> i32 {
         }
     });
     let mut acc = Acc::merge_all(accs);
+    memory_leg(&mut acc, &bases);
     // every single bit of every signature (Ed25519 always; all schemes in thorough)
     let bit_jobs: Vec<(usize, usize)> = {
         let mut v = vec![];
@@ -805,13 +887,19 @@ pub fn run(tier: Tier) -> i32 {
         "state = (base layout in {{no steps, one step with rules, two steps with MATCH+prefix, threshold 2 with RSA key in table, one step and one inspection, one step whose names and rule patterns carry separators, mixed case and a non-ASCII letter}} (each directory also holds the evidence the mutated layouts ask for), signer subset of 4 owners of 4 key types, caller key map, mutation history of length <= {depth} over {} mutations incl. inverses, signature corruption); every state is one in_toto_verify run; non-trivial = anything but the exact key map on the untouched block",
         MUTATIONS.len()
     );
-    c.bound_completed = format!("all 16 signer subsets x all caller key maps x 10 corruptions per signature entry; mutation depth {depth} ({}); every leaf of the signed part x {} small edits (strings re-spelled: separators, case, added blanks/NUL/slashes, decomposed letter; integers +-1, negated, +2^8..+2^63; null <-> empty; booleans; member removed) for the one- and three-signer sets; every single bit of {} signature(s)", if depth == 3 { "depth 1 with every accepting-capable key map, depth 2 with the exact key map for all signer sets, depth 3 for the single-Ed25519-signer set" } else { "depth 1 with every accepting-capable key map, depth 2 with the exact key map" }, crate::tamper::RESPELLINGS.len() + crate::tamper::NUMBER_EDITS.len() + crate::tamper::SHAPE_EDITS.len(), if tier.thorough() { "all four schemes'" } else { "the Ed25519" });
+    c.bound_completed = format!("all 16 signer subsets x all caller key maps x 10 corruptions per signature entry; mutation depth {depth} ({}); every leaf of the signed part x {} small edits (strings re-spelled: separators, case, added blanks/NUL/slashes, decomposed letter; integers +-1, negated, +2^8..+2^63; null <-> empty; booleans; member removed) for the one- and three-signer sets; {} in-memory edits of each base layout (key-table entries swapped / re-filed under another identifier, fields changed through the public API) for two signer sets, judged by Metablock::verify and in_toto_verify; every single bit of {} signature(s)", if depth == 3 { "depth 1 with every accepting-capable key map, depth 2 with the exact key map for all signer sets, depth 3 for the single-Ed25519-signer set" } else { "depth 1 with every accepting-capable key map, depth 2 with the exact key map" }, crate::tamper::RESPELLINGS.len() + crate::tamper::NUMBER_EDITS.len() + crate::tamper::SHAPE_EDITS.len(), MEMORY_EDITS.len(), if tier.thorough() { "all four schemes'" } else { "the Ed25519" });
     c.assume("ring's verification is a trusted black box; fixed keys");
     c.assume("'content enforced equals content signed' is decided on the parsed value (expiry to the second)");
     c.finish()
 }
 
 pub fn replay(case: &Value) -> Value {
+    if case["kind"] == "in-memory-edit" {
+        let mut acc = Acc::new();
+        memory_leg(&mut acc, &bases());
+        let hit = acc.violations.values().find(|v| v.witness["edit"] == case["edit"] && v.witness["base"] == case["base"]).map(|v| v.key.clone());
+        return json!({"note": "the in-memory leg is re-run as a whole", "violation": hit.or_else(|| acc.violations.keys().next().cloned())});
+    }
     let bs = bases();
     let Some(base) = bs.iter().find(|b| Some(b.name) == case["base"].as_str()) else {
         return json!({"error": "unknown base", "violation": null});
